@@ -32,6 +32,19 @@
 //   * kDeltaPalette is transcribed below; I have no copy of the standard, so the table's independence from the code is
 //     limited to my recollection of libjxl's table (it guards against edits of the code's table, not against a common typo).
 //
+//   * num_c == 1 && nb_deltas == 0 && d_pred == Zero: libjxl's InvPalette (recalled from memory) CLAMPS the index to
+//     [0, nb_colours - 1] instead of producing implicit entries; the standard's pseudo-code and the code do not. Not claimed
+//     either way: mt.pal_value_gray states GetPaletteValue semantics (what the code does).
+//
+// Findings on the unchanged tree (each is an obligation that fails today and should pass on correct code):
+//   F1 (C03) `is_simple` ignores nb_deltas: if every index is explicit, entries below nb_deltas get no prediction
+//            (pal_delta_all_explicit_*; witness palette = [-1], nb_deltas >= 1, d_pred = West, indices [0, 0] -> want [-1, -2], got [-1, -1]).
+//   F2 (C03) c >= 3 in the implicit cubes is not 0 (pal_value_extra_small_cube / _large_cube;
+//            witness nb_colours 2, index 10, bit depth 20, c = 3 -> got 1 << 17, libjxl 0).
+//   F3 (C01) `index >> (2 * c)` overflows the shift for c >= 16 (pal_total_many_channels).
+//   F4 (C01) bit depth 30, 31 (integer) and 32 (float): `(1i32 << bit_depth) - 1` and the product with 3 / 4 overflow in both
+//            implicit cubes (pal_total_hibd; witness nb_colours 1, index 31, bit depth 32).
+//
 // Preconditions and where the real call sites establish them:
 //   * palette grid = nb_colours x num_c (transform.rs:48-54 prepare_meta_channels), targets = num_c grids of one size
 //     (transform.rs:233-238 equal-size check, 260-276), num_c >= 1 (transform.rs:151);
@@ -185,7 +198,7 @@ fn run_inverse<const NC: usize, const NBC: usize, const PX: usize>(
 
 /// value contract: d_pred = Zero (prediction 0), so every sample must equal GetPaletteValue exactly.
 /// `branches[p]` restricts the kind of entry pixel p refers to.
-fn palette_value_case<const NC: usize, const NBC: usize, const PX: usize>(bd_lo: u32, bd_hi: u32, branches: [Branch; PX], only_extra_channels: bool) {
+fn palette_value_case<const NC: usize, const NBC: usize, const PX: usize>(bd_lo: u32, bd_hi: u32, branches: [Branch; PX], only_extra_channels: bool, idx_lo: i32) {
     let palette: [[i32; NBC]; NC] = kani::any();
     let chans: [[i32; PX]; NC] = kani::any();
     let bit_depth: u32 = kani::any();
@@ -194,7 +207,7 @@ fn palette_value_case<const NC: usize, const NBC: usize, const PX: usize>(bd_lo:
     kani::assume(nb_deltas <= 1281 + 65535);
     let mut i = 0;
     while i < PX {
-        kani::assume(in_branch(branches[i], chans[0][i], NBC as i32));
+        kani::assume(in_branch(branches[i], chans[0][i], NBC as i32) && chans[0][i] >= idx_lo);
         i += 1;
     }
     let out = run_inverse::<NC, NBC, PX>(&palette, chans, PX, nb_deltas, Predictor::Zero, bit_depth);
@@ -231,7 +244,7 @@ fn palette_value_case<const NC: usize, const NBC: usize, const PX: usize>(bd_lo:
     let cc = c < 3 || only_extra_channels;
     kani::cover!(!has[2] || (index < 0 && index != -1 && cc && bit_depth > 8 && (bit_depth < 25 || c >= 3 || want != 0)));
     kani::cover!(!has[2] || (index < 0 && (index.wrapping_add(1).wrapping_neg() % 143) & 1 == 1));
-    kani::cover!(!has[2] || index == i32::MIN);
+    kani::cover!(!has[2] || index == idx_lo);
     kani::cover!(!has[1] || NBC == 0 || (index >= 0 && (index as i64) < NBC as i64));
     kani::cover!(!has[3] || (index as i64 - NBC as i64 == 63));
     kani::cover!(!has[4] || (index as i64 - NBC as i64 - 64 == 124));
@@ -240,10 +253,13 @@ fn palette_value_case<const NC: usize, const NBC: usize, const PX: usize>(bd_lo:
 
 macro_rules! palette_value_harness {
     ($name:ident, $unwind:literal, $nc:literal, $nbc:literal, $px:literal, $lo:literal, $hi:literal, $branches:expr, $extra:literal) => {
+        palette_value_harness!($name, $unwind, $nc, $nbc, $px, $lo, $hi, $branches, $extra, i32::MIN);
+    };
+    ($name:ident, $unwind:literal, $nc:literal, $nbc:literal, $px:literal, $lo:literal, $hi:literal, $branches:expr, $extra:literal, $idx_lo:expr) => {
         #[kani::proof]
         #[kani::unwind($unwind)]
         fn $name() {
-            palette_value_case::<$nc, $nbc, $px>($lo, $hi, $branches, $extra);
+            palette_value_case::<$nc, $nbc, $px>($lo, $hi, $branches, $extra, $idx_lo);
         }
     };
 }
@@ -252,8 +268,11 @@ macro_rules! palette_value_harness {
 // two pixels, both explicit: the fast path `inverse_simple`
 palette_value_harness!(pal_value_rgb_explicit, 5, 3, 2, 2, 1, 24, [Branch::Explicit, Branch::Explicit], false);
 // two pixels, one explicit, one implicit: explicit entries on the slow path
-palette_value_harness!(pal_value_rgb_mixed, 5, 3, 2, 2, 1, 24, [Branch::Explicit, Branch::SmallCube], false);
-palette_value_harness!(pal_value_rgb_delta, 5, 3, 2, 1, 1, 24, [Branch::Delta], false);
+palette_value_harness!(pal_value_rgb_mixed, 4, 2, 2, 2, 1, 24, [Branch::Explicit, Branch::SmallCube], false); // two channels: c = 0, 1
+// delta entries: the two `% 143` (code / spec) over all 2^31 negative indices take ~5 min to match, hence a 16-bit index range
+// in the quick tier and the full range in the thorough tier
+palette_value_harness!(pal_value_rgb_delta, 5, 3, 2, 1, 1, 24, [Branch::Delta], false, -65536);
+palette_value_harness!(pal_value_rgb_delta_full, 5, 3, 2, 1, 1, 24, [Branch::Delta], false);
 palette_value_harness!(pal_value_rgb_small_cube, 5, 3, 2, 1, 1, 24, [Branch::SmallCube], false);
 palette_value_harness!(pal_value_rgb_large_cube, 5, 3, 2, 1, 1, 24, [Branch::LargeCube], false);
 // empty palette (nb_colours = 0: zero-width palette grid), every non-negative index is implicit
@@ -267,7 +286,7 @@ palette_value_harness!(pal_value_extra_delta, 7, 5, 2, 1, 1, 24, [Branch::Delta]
 palette_value_harness!(pal_value_extra_small_cube, 7, 5, 2, 1, 1, 24, [Branch::SmallCube], true);
 palette_value_harness!(pal_value_extra_large_cube, 7, 5, 2, 1, 1, 24, [Branch::LargeCube], true);
 // high bit depths: delta entries use min(bitdepth, 24) in both references
-palette_value_harness!(pal_value_hibd_delta, 5, 3, 1, 1, 25, 32, [Branch::Delta], false);
+palette_value_harness!(pal_value_hibd_delta, 5, 3, 1, 1, 25, 32, [Branch::Delta], false, -65536);
 palette_value_harness!(pal_value_hibd_explicit, 5, 3, 1, 1, 25, 32, [Branch::Explicit], false);
 
 /// implicit cube entries at bit depth 25..=29: the formula at the UNCLAMPED bit depth, mathematical integers (see header)
@@ -282,7 +301,7 @@ fn palette_cube_hibd_case(branch: Branch) {
     kani::assume(c < 3);
     let want = spec_palette_value::<3, 1>(chans[0][0], c, bit_depth, &palette);
     assert!(out[c][0] as i64 == want, "[C03] implicit cube entry at bit depth 25..=29 == the formula at the unclamped bit depth in mathematical integers");
-    kani::cover!(bit_depth == 29 && want > (1i64 << 30));
+    kani::cover!(bit_depth == 29 && want > (1i64 << 28));
 }
 
 #[kani::proof]
@@ -354,43 +373,67 @@ fn spec_predict(pred: Predictor, w: i64, n: i64, nw: i64) -> i64 {
     }
 }
 
-/// NC channels of a 2x2 image, palette of NBC = 1 colour, 8 bit. The relation is stated on the OUTPUT image: each sample is
-/// its palette value plus, iff index < nb_deltas, the prediction from the output samples W, N, NW (H.3 edge rules).
-fn palette_delta_case<const NC: usize>(pred: Predictor) {
+/// NC channels of a W x (PX / W) image, palette of NBC = 1 colour, 8 bit. The relation is stated on the OUTPUT image: each
+/// sample is its palette value plus, iff index < nb_deltas, the prediction from the output samples W, N, NW (H.3 edge rules).
+///
+/// `all_explicit` splits the input space by the code's dispatch: true = every index is an explicit entry (0 <= index <
+/// nb_colours; the code then takes `inverse_simple`), false = at least one index is not (slow path). Both halves carry the
+/// same postcondition. On the unchanged tree the `true` half FAILS: `is_simple` ignores nb_deltas, so an image whose indices
+/// are all explicit gets no prediction although index < nb_deltas (witness in the registry row mt.pal_delta_all_explicit).
+fn palette_delta_case<const NC: usize, const PX: usize>(w_img: usize, pred: Predictor, all_explicit: bool, idx_abs_max: i32) {
     let palette: [[i32; 1]; NC] = kani::any();
-    let chans: [[i32; 4]; NC] = kani::any();
+    let chans: [[i32; PX]; NC] = kani::any();
     let nb_deltas: u32 = kani::any();
     kani::assume(nb_deltas <= 1281 + 65535);
-    let out = run_inverse::<NC, 1, 4>(&palette, chans, 2, nb_deltas, pred, 8);
+    let mut every = true;
+    let mut i = 0;
+    while i < PX {
+        every = every && chans[0][i] == 0; // nb_colours = 1
+        kani::assume(chans[0][i] >= -idx_abs_max && chans[0][i] <= idx_abs_max);
+        i += 1;
+    }
+    kani::assume(every == all_explicit);
+    let out = run_inverse::<NC, 1, PX>(&palette, chans, w_img, nb_deltas, pred, 8);
+    let h_img = PX / w_img;
     let x: usize = kani::any();
     let y: usize = kani::any();
     let c: usize = kani::any();
-    kani::assume(x < 2 && y < 2 && c < NC);
-    let at = |xx: usize, yy: usize| out[c][yy * 2 + xx] as i64;
+    kani::assume(x < w_img && y < h_img && c < NC);
+    let at = |xx: usize, yy: usize| out[c][yy * w_img + xx] as i64;
     let w = if x > 0 { at(x - 1, y) } else if y > 0 { at(x, y - 1) } else { 0 };
     let n = if y > 0 { at(x, y - 1) } else { w };
     let nw = if x > 0 && y > 0 { at(x - 1, y - 1) } else { w };
-    let index = chans[0][y * 2 + x];
+    let index = chans[0][y * w_img + x];
     let base = spec_palette_value::<NC, 1>(index, c, 8, &palette);
     let is_delta = (index as i64) < nb_deltas as i64;
     let want = if is_delta { base + spec_predict(pred, w, n, nw) } else { base };
-    assert!(out[c][y * 2 + x] == want as i32, "[C03] sample = palette value + (index < nb_deltas ? d_pred prediction from the reconstructed W, N, NW : 0), wrapped to 32 bits");
-    kani::cover!(is_delta && index >= 0 && x == 1 && y == 1);
-    kani::cover!(!is_delta && x == 1 && y == 1 && (chans[0][0] as i64) < nb_deltas as i64);
-    kani::cover!(is_delta && index < 0 && x == 0 && y == 1);
+    assert!(out[c][y * w_img + x] == want as i32, "[C03] sample = palette value + (index < nb_deltas ? d_pred prediction from the reconstructed W, N, NW : 0), wrapped to 32 bits");
+    kani::cover!(is_delta && index >= 0 && x + 1 == w_img && y + 1 == h_img);
+    kani::cover!(all_explicit || (!is_delta && x + 1 == w_img && y + 1 == h_img && (chans[0][0] as i64) < nb_deltas as i64));
+    kani::cover!(all_explicit || (is_delta && index < 0 && x + 1 == w_img && y + 1 == h_img));
+    kani::cover!(is_delta && x == 0 && y == 0 && PX > 1);
+    kani::cover!(!is_delta && x + 1 == w_img && y + 1 == h_img);
 }
 
 macro_rules! palette_delta_harness {
-    ($name:ident, $nc:literal, $pred:expr) => {
+    ($name:ident, $nc:literal, $px:literal, $w:literal, $pred:expr, $all_explicit:literal, $idx:expr) => {
         #[kani::proof]
-        #[kani::unwind(8)]
+        #[kani::unwind(6)]
         fn $name() {
-            palette_delta_case::<$nc>($pred);
+            palette_delta_case::<$nc, $px>($w, $pred, $all_explicit, $idx);
         }
     };
 }
-palette_delta_harness!(pal_delta_pred_west, 1, Predictor::West);
-palette_delta_harness!(pal_delta_pred_north, 1, Predictor::North);
-palette_delta_harness!(pal_delta_pred_gradient, 1, Predictor::Gradient);
-palette_delta_harness!(pal_delta_pred_avg, 1, Predictor::AvgWestAndNorth);
-palette_delta_harness!(pal_delta_pred_select, 1, Predictor::Select);
+// quick tier: |index| <= 255 (delta entries, the explicit entry, the whole 4x4x4 cube and 190 entries of the 5x5x5 cube)
+palette_delta_harness!(pal_delta_pred_west_2x1_small, 1, 2, 2, Predictor::West, false, 255);
+palette_delta_harness!(pal_delta_pred_north_1x2_small, 1, 2, 1, Predictor::North, false, 255);
+// thorough tier: every i32 index
+palette_delta_harness!(pal_delta_pred_west_2x1, 1, 2, 2, Predictor::West, false, i32::MAX);
+palette_delta_harness!(pal_delta_pred_north_1x2, 1, 2, 1, Predictor::North, false, i32::MAX);
+palette_delta_harness!(pal_delta_pred_west_2x1_2ch, 2, 2, 2, Predictor::West, false, 255); // two channels: the predictor state restarts per channel
+palette_delta_harness!(pal_delta_pred_avg_2x1, 1, 2, 2, Predictor::AvgWestAndNorth, false, i32::MAX);
+palette_delta_harness!(pal_delta_pred_gradient_2x2, 1, 4, 2, Predictor::Gradient, false, 255);
+palette_delta_harness!(pal_delta_pred_select_2x2, 1, 4, 2, Predictor::Select, false, 255);
+// every index explicit (fast path): same postcondition
+palette_delta_harness!(pal_delta_all_explicit_west_2x1, 1, 2, 2, Predictor::West, true, i32::MAX);
+palette_delta_harness!(pal_delta_all_explicit_north_1x2, 1, 2, 1, Predictor::North, true, i32::MAX);
